@@ -380,6 +380,16 @@ def conflict_cases(acc):
         ('value-array-equal', {'_value': np.array([1, 2]),
                                '_updater': 'set'},
          {'_value': np.array([1, 2]), '_updater': 'set'}, False),
+        # arrays of different (broadcastable) shape, and arrays / numbers
+        # that differ a little, are different declarations
+        ('value-array-shape', {'_value': np.array([2.0, 2.0, 2.0]),
+                               '_updater': 'set'},
+         {'_value': np.array([2.0]), '_updater': 'set'}, True),
+        ('value-array-close', {'_value': np.array([1.0, 2.0]),
+                               '_updater': 'set'},
+         {'_value': np.array([1.0, 2.00001]), '_updater': 'set'}, True),
+        ('value-float-close', {'_value': 1.0}, {'_value': 1.0 + 1e-9},
+         True),
     ]
     for (label, a, b, must_raise) in confl:
         for topo_b in (('s',), {'_path': ('t',), 'v': ('..', 's', 'v')}):
@@ -784,15 +794,23 @@ def special_cases_4(acc):
                 'explicit': explicit}
         acc.case(key=('special', 'kept-init', two_procs, explicit),
                  outcome='special')
-        own = {'p1': {'sub': {'a': 1}}, 'p2': {'sub': {'b': 2}}}
+        # (port p3: an EMPTY dictionary for a glob store, into which the
+        # explicit call names a child)
+        own = {'p1': {'sub': {'a': 1}, 'kids': {}}, 'p2': {'sub': {'b': 2}},
+               'p3': {}}
         before = copy.deepcopy(own)
         schema = {pt: {'sub': {'a': leaf(0), 'b': leaf(0), 'c': leaf(0)}}
                   for pt in ('p1', 'p2')}
+        schema['p3'] = {'*': {'m': leaf(0)}}
+        # ... and an empty dictionary for a glob store NESTED in a port
+        schema['p1']['kids'] = {'*': {'m': leaf(0)}}
         processes = {'p': probes.Probe({
             'pid': 'p', 'log_states': False, 'schema': schema,
             'init': own, 'init_by_reference': True})}
-        topology = {'p': {'p1': ('store',), 'p2': ('store',)}}
-        want = {'store': {'sub': {'a': 1, 'b': 2}}}
+        topology = {'p': {'p1': ('store',), 'p2': ('store',),
+                          'p3': ('cells',)}}
+        want = {'store': {'sub': {'a': 1, 'b': 2}, 'kids': {}},
+                'cells': {}}
         if two_procs:
             processes['q'] = probes.Probe({
                 'pid': 'q', 'log_states': False,
@@ -805,7 +823,9 @@ def special_cases_4(acc):
             got = [comp.initial_state()]
             if explicit:
                 comp.initial_state({'initial_state': {
-                    'store': {'sub': {'a': -5, 'b': -6}}}})
+                    'store': {'sub': {'a': -5, 'b': -6},
+                              'kids': {'k1': {'m': 1}}},
+                    'cells': {'c1': {'m': 2.5}}}})
             got.append(comp.initial_state())
         except Exception as e:  # noqa
             acc.violate(fw.violation(
